@@ -30,6 +30,7 @@ def plan(tier, seed):
     thorough = tier == "thorough"
     jobs = []
     for v in ("c", "py"):
+        jobs.append({"variant": v, "part": "digits", "params": {}})
         jobs.append({"variant": v, "part": "nfkc", "params": {}})
         jobs.append({"variant": v, "part": "ascii", "params": {}})
     n = 16 if thorough else 4
@@ -77,6 +78,32 @@ def run_nfkc(ctx):
         if is_exc(r):
             ctx.fail("benign_rejected", {"route": "ctor", "host": f"a{c}b.com"}, f"{r!r}")
     ctx.sample({"route": "build_host", "cp": "U+2100", "host": "a℀b.com"})
+
+
+def run_digits(ctx):
+    """EXHAUSTIVE: every non-ASCII code point that str.isdigit()/isdecimal()/isnumeric() accepts, in hosts made of digits and dots
+    (the shape that looks like an IPv4 literal): the result must be a canonical ASCII host or a ValueError - on every route."""
+    from yarl import URL
+
+    base = URL("http://x.org/p")
+    cps = [cp for cp in range(0x80, 0x110000) if not 0xD800 <= cp <= 0xDFFF and (chr(cp).isdigit() or chr(cp).isdecimal())]
+    ctx.notes["unicode_digits"] = len(cps)
+    for cp in cps:
+        d = chr(cp)
+        for h in (d, d + d + d, f"127.0.0.{d}", f"{d}{d}{d}.{d}.{d}.{d}", f"{d}.{d}", f"a{d}", f"{d}a.com", f"1{d}"):
+            for route, fn in (("ctor", lambda: URL(f"http://{h}:8080/p")), ("build_host", lambda: URL.build(scheme="http", host=h)),
+                              ("build_authority", lambda: URL.build(scheme="http", authority=f"u@{h}:81")), ("with_host", lambda: base.with_host(h))):
+                u = guarded(fn)
+                ctx.ev((route, "unicode-digit", "U+%04X" % (cp & 0xFFF0), "exc" if is_exc(u) else "ok"))
+                case = {"route": route, "host": h, "class": "unicode-digit"}
+                if is_exc(u):
+                    if u.type == "ValueError" or u.type.startswith("Unicode") or u.type in ("IDNAError", "InvalidCodepoint", "InvalidCodepointContext", "IDNABidiError"):
+                        ctx.count("rejected_ok")
+                    else:
+                        ctx.fail("wrong_exception", case, f"{u!r}")
+                    continue
+                check_host_invariants(ctx, u, case, chain=False)
+    ctx.sample({"route": "ctor", "host": "１２７.０.０.１"})
 
 
 def run_ascii(ctx):
@@ -374,7 +401,7 @@ def run(ctx):
             if not is_exc(u):
                 check_host_invariants(ctx, u, dict(c, route=route))
         return
-    {"nfkc": run_nfkc, "ascii": run_ascii, "ipv6": run_ipv6, "labels": run_labels}[ctx.part](ctx)
+    {"nfkc": run_nfkc, "ascii": run_ascii, "ipv6": run_ipv6, "labels": run_labels, "digits": run_digits}[ctx.part](ctx)
 
 
 def finalize(merged, results, tier):
